@@ -150,7 +150,7 @@ def ensure_facts(verbose=True, _retry=0):
     os.makedirs(CACHE, exist_ok=True)
     h = tree_hash()
     d = os.path.join(CACHE, "facts-" + h)
-    lock = open(os.path.join(CACHE, "lock"), "w")
+    lock = open(os.path.join(CACHE, "lock-" + h), "w")     # per-tree lock: different trees build in parallel
     fcntl.flock(lock, fcntl.LOCK_EX)
     try:
         if os.path.exists(os.path.join(d, "OK")):
@@ -189,8 +189,13 @@ def ensure_facts(verbose=True, _retry=0):
             print("[facts] done in %.1fs (%d rust fact files)" % (time.time() - t0, n), file=sys.stderr, flush=True)
         # prune: keep the newest three fact dirs
         dirs = sorted(glob.glob(os.path.join(CACHE, "facts-*")), key=os.path.getmtime, reverse=True)
-        for old in dirs[8:]:
-            shutil.rmtree(old, ignore_errors=True)
+        for old in dirs[12:]:
+            if os.path.exists(os.path.join(old, "OK")) or os.path.exists(os.path.join(old, "FAILED")):
+                shutil.rmtree(old, ignore_errors=True)
+                try:
+                    os.remove(os.path.join(CACHE, "lock-" + os.path.basename(old)[6:]))
+                except OSError:
+                    pass
         return d
     finally:
         fcntl.flock(lock, fcntl.LOCK_UN)
